@@ -32,6 +32,8 @@ ASSUMPTIONS = ['abscissae and grids are lattice points of [-1,1] (dyadic plus +-
                'bases: |error| <= 1e-10 (float64, int) or 5e-5 (float32) against exact rational recurrences; 1-D arrays and scalars only',
                'fits: "enough good points" is read as number of positive-weight points >= ncoeff and a weighted design matrix of the free '
                'columns with condition number <= 1e4; tolerance 1e-13*cond^2*(1+|c|)+1e-10',
+               'trace sets: explicit xmin/xmax (including 0, 0.0 and negative limits, one or both given) always enclose the data strictly; '
+               'a trace set built with explicit limits must report exactly those limits',
                'trace sets: float64 positions, xmax > xmin; rejection thresholds are not set so the fit is a single weighted least-squares fit; '
                'the normalisation model is x -> 2(x + jfrac*xjumpval - xmid)/(xmax - xmin) as documented',
                'default grid: exactly xmin..xmax for integral xmax-xmin; for a non-integral range only "starts at xmin, unit steps, '
@@ -173,6 +175,28 @@ def make_y(ykind, B, n):
     raise KeyError(ykind)
 
 
+RANGE_MODES = ('implicit', 'explicit', 'zero-lo', 'zero-lo-only', 'zero-hi', 'zero-hi-only', 'negative')
+
+
+def range_mode(name, nx):
+    """(shift applied to the positions, explicit xmin or None, explicit xmax or None); data always lie strictly inside explicit limits."""
+    if name == 'implicit':
+        return 0.0, None, None
+    if name == 'explicit':
+        return 0.0, -2.0, float(nx + 2)
+    if name == 'zero-lo':          # pixels 5.. with xmin = 0 (a Python int) and xmax beyond the data
+        return 5.0, 0, float(nx + 9)
+    if name == 'zero-lo-only':     # only xmin given (0.0); xmax taken from the data
+        return 5.0, 0.0, None
+    if name == 'zero-hi':          # negative positions with xmax = 0.0
+        return -float(nx + 4), -float(nx + 9), 0.0
+    if name == 'zero-hi-only':     # only xmax given (int 0)
+        return -float(nx + 4), None, 0
+    if name == 'negative':         # both limits negative
+        return -float(nx + 20), -float(nx + 25), -10.0
+    raise KeyError(name)
+
+
 def trace_inputs(case):
     nt, nx = case['ntrace'], case['nx']
     base = np.arange(nx, dtype=float)
@@ -197,12 +221,14 @@ def trace_inputs(case):
     elif case['wkind'] == 'varied':
         w = np.array([[0.5 + ((j * 3 + i) % 4) for j in range(nx)] for i in range(nt)])
         kw['invvar'] = w.copy()
-    if case['range'] == 'explicit':
-        kw['xmin'] = -2.0
-        kw['xmax'] = float(nx + 2)
-        xmin, xmax = -2.0, float(nx + 2)
-    else:
-        xmin, xmax = float(xpos.min()), float(xpos.max())
+    shift, lo, hi = range_mode(case['range'], nx)
+    xpos = xpos + shift
+    if lo is not None:
+        kw['xmin'] = lo
+    if hi is not None:
+        kw['xmax'] = hi
+    xmin = float(lo) if lo is not None else float(xpos.min())
+    xmax = float(hi) if hi is not None else float(xpos.max())
     if case['jump'] is not None:
         kw['xjumplo'], kw['xjumphi'], kw['xjumpval'] = case['jump']
     return xpos, ypos, w, kw, xmin, xmax
@@ -336,6 +362,16 @@ def check_trace(case):
     except Exception as e:
         return [(_exc_sig('xy2traceset', e, jt), repr(e))], 'exc'
     scale = 1.0 + float(np.abs(ypos).max())
+    # (0) explicit limits are the limits of the trace set
+    for nm, want in (('xmin', kw.get('xmin')), ('xmax', kw.get('xmax'))):
+        if want is not None:
+            try:
+                have = float(getattr(tset, nm))
+            except Exception:
+                have = float('nan')
+            if not have == float(want):
+                bad.append(('xy2traceset:%s-not-as-requested%s' % (nm, ':limit=0' if float(want) == 0 else ''),
+                            'requested %s=%r, trace set has %r' % (nm, want, have)))
     # (a) evaluating at the same positions returns the fitted values, through both entry points
     try:
         outs = [traceset2xy(tset, xpos.copy()), tset.xy(xpos.copy())]
@@ -525,10 +561,14 @@ def run_task(task):
         for ntr in (1, 2, 3):
             for nx in ((8, 12) if not T else (8, 9, 12, 16, 20)):
                 for xkind in ('pixel', 'offset', 'nonuni'):
-                    for rng in ('implicit', 'explicit'):
+                    for rng in RANGE_MODES:
+                        jump = jump_menu(nx, jk)
+                        if jump is not None:      # the jump moves with the positions
+                            sh = range_mode(rng, nx)[0]
+                            jump = [jump[0] + sh, jump[1] + sh, jump[2]]
                         for wkind in ('ones', 'zeros', 'inmask', 'varied'):
                             case = {'f': 'trace', 'func': func, 'nc': nc, 'ntrace': ntr, 'nx': nx, 'xkind': xkind,
-                                    'range': rng, 'wkind': wkind, 'jump': jump_menu(nx, jk)}
+                                    'range': rng, 'wkind': wkind, 'jump': jump}
                             _do(acc, case, nc >= 2)
     elif f == 'tsfits':
         func = task['func']
